@@ -44,7 +44,7 @@ pub enum AuthorisationMessage {
         Sender<Result<()>>,
     ),
     DeleteNodes(
-        HashMap<Uid, (NodeDeletionEntry, Option<Vec<u8>>)>,
+        Vec<(NodeDeletionEntry, Option<Vec<u8>>)>,
         Sender<Result<()>>,
     ),
     UserForRoom(Uid, Sender<Result<HashSet<Vec<u8>>>>),
@@ -1268,11 +1268,10 @@ impl RoomAuthorisations {
     ///
     fn validate_node_deletions(
         &self,
-        nodes: HashMap<Uid, (NodeDeletionEntry, Option<Vec<u8>>)>,
+        nodes: Vec<(NodeDeletionEntry, Option<Vec<u8>>)>,
     ) -> Vec<NodeDeletionEntry> {
         let mut result = Vec::new();
         for entry in nodes {
-            let entry = entry.1;
             let deletion = entry.0;
             if deletion.entity_name.is_none() {
                 continue;
